@@ -420,7 +420,8 @@ func c10vseqUnits(all bool) []c10endpoint {
 }
 
 // c10vseqAlts is the alphabet of one endpoint: the valid submissions and (size 0) the core families of targeted invalid
-// submissions of the single-call enumeration or (size 1) every targeted submission.
+// submissions of the single-call enumeration, (size 1) every targeted submission, (size -1) only valid, other share,
+// previous fork, zero signature.
 func c10vseqAlts(e c10endpoint, own string, size int) []string {
 	otherDom := c10domNames[0]
 	if otherDom == own {
@@ -429,6 +430,9 @@ func c10vseqAlts(e c10endpoint, own string, size int) []string {
 	keep := map[string]bool{"baseline": true, "baseline-v1": true, "other-share-1": true, "other-validator-same-share": true,
 		"wrong-domain-" + otherDom: true, "wrong-fork-previous": true, "wrong-fork-genesis": true, "other-message": true, "zero-signature": true,
 		"outsider-validator": true, "agreed-differs": true}
+	if size < 0 {
+		keep = map[string]bool{"baseline": true, "other-share-1": true, "wrong-fork-previous": true, "zero-signature": true}
+	}
 	var out []string
 	for _, alt := range c10vapiTargeted(e) {
 		if alt == "wrong-domain-"+own {
@@ -472,14 +476,24 @@ func c10vapiSequences(r *enumx.Run, s *c10vseq) {
 		for _, q := range units {
 			main = main || q.unit() == e.unit()
 		}
-		if thorough && main {
-			size = 1 // thorough: every targeted submission of the main units, the core families of all other versions
+		if thorough {
+			size = -1 // thorough: every targeted submission of the main units, four operations for every other version
+			if main {
+				size = 1
+			}
 		}
 		for _, alt := range c10vseqAlts(e, s.ownDomain(e), size) {
 			ops = append(ops, e.unit()+"|"+alt)
 		}
 	}
 	units = c10vseqUnits(thorough)
+	nrep := 0
+	for _, e := range units {
+		if !e.NoSubs {
+			nrep += len(s.replayDescs(e, units))
+		}
+	}
+	r.Note(fmt.Sprintf("vapi sequences: alphabet of %d operations over %d endpoint units: %d ordered pairs, plus %d replay operations after the valid submission of each unit", len(ops), len(units), len(ops)*len(ops), nrep))
 	for i, a := range ops {
 		if !r.Mine() {
 			continue
